@@ -1,26 +1,28 @@
 #!/bin/sh
 # usage: tools/eval_isolated.sh <patch.diff> <ID> [more IDs...]
-# Like eval_seeded.sh, but on a private copy: a scratch worktree of /repo's HEAD (/tmp/eval-repo) and a
-# copy of the simulator crate as committed in /verif's HEAD (/tmp/eval-sim, path dependencies redirected), so that /repo and
+# Like eval_seeded.sh, but on a private copy: a scratch worktree of /repo's HEAD ($R) and a
+# copy of the simulator crate as committed in /verif's HEAD ($X, path dependencies redirected), so that /repo and
 # /verif/sim stay untouched and usable meanwhile. Development helper; registered checks never use it.
 P="$1"; shift
-[ -d /tmp/eval-repo ] || git -C /repo worktree add --detach /tmp/eval-repo HEAD >/dev/null 2>&1 || exit 2
-git -C /tmp/eval-repo checkout -q --detach "$(git -C /repo rev-parse HEAD)" 2>/dev/null
-git -C /tmp/eval-repo checkout -- . 
-mkdir -p /tmp/eval-sim /tmp/seeded-eval
+# EVAL_SLOT (default 1) selects the private copy, so that two evaluations can run side by side
+S="${EVAL_SLOT:-1}"; R=$R-$S; X=$X-$S; E=$E-$S; O=$O-$S
+[ -d $R ] || git -C /repo worktree add --detach $R HEAD >/dev/null 2>&1 || exit 2
+git -C $R checkout -q --detach "$(git -C /repo rev-parse HEAD)" 2>/dev/null
+git -C $R checkout -- . 
+mkdir -p $X $O
 # the simulator as *committed* (edits in progress in /verif/sim do not disturb an evaluation)
-rm -rf /tmp/eval-export && mkdir -p /tmp/eval-export && git -C /verif archive HEAD sim | tar -x -C /tmp/eval-export
-rsync -a --delete --exclude target /tmp/eval-export/sim/ /tmp/eval-sim/
-sed -i 's#/repo/crates#/tmp/eval-repo/crates#g' /tmp/eval-sim/Cargo.toml
-cp /verif/known_findings.txt /tmp/seeded-eval/
-cd /tmp/eval-repo || exit 2
+rm -rf $E && mkdir -p $E && git -C /verif archive HEAD sim | tar -x -C $E
+rsync -a --delete --exclude target $E/sim/ $X/
+sed -i "s#/repo/crates#$R/crates#g" $X/Cargo.toml
+cp /verif/known_findings.txt $O/
+cd $R || exit 2
 if ! git apply --check "$P" 2>/dev/null; then echo "patch does not apply"; exit 2; fi
 git apply "$P"
 git diff --stat | tail -1
-cd /tmp/eval-sim
-if ! CARGO_NET_OFFLINE=true cargo build --release --offline >build.log 2>&1; then echo "BUILD FAILED"; grep -E "^error" -A8 build.log | head -30; git -C /tmp/eval-repo checkout -- .; exit 2; fi
+cd $X
+if ! CARGO_NET_OFFLINE=true cargo build --release --offline >build.log 2>&1; then echo "BUILD FAILED"; grep -E "^error" -A8 build.log | head -30; git -C $R checkout -- .; exit 2; fi
 for id in "$@"; do
-  out=$(VERIF_DIR=/tmp/seeded-eval ./target/release/sim check "$id" --tier quick 2>&1); rc=$?
+  out=$(VERIF_DIR=$O ./target/release/sim check "$id" --tier quick 2>&1); rc=$?
   echo "[$id] rc=$rc"; echo "$out" | grep -a -E "scenario=|^VIOLATION|KNOWN|HARNESS|HANG|^runs=" | cut -c1-300
 done
-git -C /tmp/eval-repo checkout -- .
+git -C $R checkout -- .
